@@ -24,6 +24,7 @@ ASSUMPTIONS = [
 ]
 
 FACTORS = [2, 3, 0.5, 0.25, 1.5, 7, 10, 0.1, 1 / 3, 2.5, np.int64(3), np.int32(2), np.float64(0.75), np.float32(0.5), np.float32(1.5), np.int16(4), np.float16(2.0), 1000, 1e-3,
+           np.uint64(2), np.uint32(3), np.uint64(5),
            # numpy scalars whose square does not fit / is rounded in their own type
            np.uint8(20), np.int16(300), np.int32(70000), np.float16(0.1), np.float32(0.1), np.uint16(1000)]
 
@@ -86,7 +87,7 @@ def one_case(ctx, index, rng: random.Random):
     steps = rng.randint(1, 4)
     # narrow integer contents: keep products (errors2 x c*c) inside the type - overflow produced by numpy itself is outside the statement
     # (numpy integers of the content type's own width count like python ints: the products are formed in 64 bits, the type widens)
-    narrow = {"int16": [2, 0.5, 1.5, np.float32(0.5), np.int16(2), np.float64(0.75), np.int16(100), np.int16(300), 1000],
+    narrow = {"int16": [2, 0.5, 1.5, np.float32(0.5), np.int16(2), np.float64(0.75), np.int16(100), np.int16(300), 1000, np.uint64(2), np.uint16(3)],
               "int32": [2, 3, 0.5, 10, 1.5, np.int32(2), np.float32(0.5), 7, np.int32(70000), np.int16(300), 70000]}.get(s0["dtype"])
     if narrow is not None:
         steps = 1 if s0["dtype"] == "int16" else min(steps, 2)
